@@ -11,7 +11,7 @@ R10.4 routing pairs: left->(buf,2) right->(buf+1,2) mono->(buf,1) muted->NULL,
       selector bodies partition 0..streams+coupled-1.
 R10.5 creation guards dominate allocation / layout stores.
 """
-from .. import decide, sx, cfg as cfgm, guards, templates as T
+from .. import decide, sx, cfg as cfgm, guards, templates as T, absint
 from ..guards import K, I
 from ..facts import flatten
 from ..compdb import AnalysisBroken
@@ -710,7 +710,7 @@ def r10_10(rep, prog):
 # ------------------------------------------------------------------ R10.11
 def _null_unsafe(prog, g, k, memo, depth=0):
     """(where, text) of a dereference of pointer parameter k of g that is reachable when the parameter is NULL at entry
-    (paths decided by the branch conditions on the parameter itself; other conditions unknown), directly or through a
+    (interval analysis from that entry state: conditions on the parameter and on flags set under them are decided, the rest is unknown), directly or through a
     callee the parameter is handed to; None if there is none"""
     key = (g.name, k)
     if key in memo:
@@ -718,10 +718,12 @@ def _null_unsafe(prog, g, k, memo, depth=0):
     memo[key] = None
     if depth > 6:
         return None
-    cf = cfgm.CFG(g)
     pk = ('param', k)
-    feas = decide.feasible_blocks(cf, {pk: 0}, entry=True)
-    # blocks at or after an assignment to the parameter: its value is no longer the caller's
+    # interval analysis with the pointer parameter as the integer 0 at entry: constants stored under conditions on the
+    # parameter (`if (len==0 || data==NULL) do_plc = 1;`) are propagated, unreachable blocks have no state
+    an = absint.Analyzer(prog, g, entry_state={pk: absint.const(0)})
+    cf = an.cf
+    feas = {b for b in cf.blocks if an.IN.get(b) is not None}
     asg = set()
     for b in cf.blocks:
         for s_ in cf.blocks[b]['stmts']:
